@@ -288,3 +288,73 @@ def drop_evidence(pid):
     p = os.path.join(ROOT, "evidence", f"{pid}.json")
     if os.path.exists(p):
         os.remove(p)
+
+
+def spawn_pool(jobs):
+    """A pool of freshly started interpreters (multiprocessing `spawn`).  Forked workers share the checker's pages
+    copy-on-write; on this VM every reference-count write into such a page costs a slow page copy (transparent huge pages:
+    2 MiB each), which made the enumerating checks spend most of their time in the kernel - measured: 45 ms per program in a
+    forked worker against 4.6 ms in an independent process.  Worker functions must be importable module-level functions
+    and tasks small picklable values."""
+    import multiprocessing
+    return multiprocessing.get_context("spawn").Pool(jobs)
+
+
+def make_pool(jobs):
+    """A fork-context multiprocessing.Pool whose workers start from a *shallow* call stack.  The pool is created inside a
+    fresh thread: fork() continues only the calling thread, so the workers do not inherit the checker's deep stack.
+    CPython 3.12 allocates the interpreter's frame stack in 16 KiB chunks and unmaps a chunk as soon as the stack falls
+    below its boundary; hy's deeply recursive compiler running near such a boundary maps and unmaps a chunk thousands of
+    times per second (measured here: most of the wall time of the enumerating checks was system time)."""
+    import multiprocessing
+    import threading
+    box = []
+
+    def target():
+        try:
+            box.append(multiprocessing.get_context("fork").Pool(jobs))
+        except BaseException as e:  # noqa: BLE001
+            box.append(e)
+    t = threading.Thread(target=target)
+    t.start()
+    t.join()
+    if isinstance(box[0], BaseException):
+        raise box[0]
+    return box[0]
+
+
+# --- keeping pool workers out of the kernel ---------------------------------------------------------------------------
+# CPython 3.12 keeps interpreter frames on a "data stack" made of 16 KiB chunks obtained with mmap and returned with munmap
+# as soon as the stack falls below a chunk boundary.  hy's compiler recurses deeply: one compiled program crosses chunk
+# boundaries about six times, i.e. six mmap/munmap pairs and two dozen page faults per program.  Alone that is cheap; with
+# 16 workers faulting at once on this VM a fault costs ~0.6 ms and the enumerating checks spent more time in the kernel
+# than in Python (measured: 12 ms system + 15 ms user per program against 4.6 ms in a single process).  A chunk is sized
+# to the frame that needs it, doubled until it fits: a frame of slightly more than 128 KiB gets a 256 KiB chunk, and all
+# frames nested under it live in the remaining ~128 KiB without any further mmap.  `roomy_call` runs f(arg) under such a
+# frame (a function with 16 700 never-assigned locals); measured afterwards: 0 s system time, 6.6 ms user per program.
+_NEVER = object()
+_ns = {}
+exec("def _big(f, arg, never):\n    if arg is never:\n        " + " = ".join(f"v{i}" for i in range(16700)) + " = None\n    return f(arg)\n", _ns)
+_big = _ns["_big"]
+
+
+def roomy_call(f, arg):
+    return _big(f, arg, _NEVER)
+
+
+def _roomy_chunk(fn, chunk):
+    return roomy_call(lambda c: [fn(x) for x in c], chunk)
+
+
+def pmap(pool, fn, tasks, chunksize=None):
+    """pool.map with every chunk of tasks run under one roomy frame (see above).  `fn` must be a module-level function."""
+    import functools
+    tasks = list(tasks)
+    if not tasks:
+        return []
+    n = chunksize or max(1, len(tasks) // (4 * 16))
+    chunks = [tasks[i:i + n] for i in range(0, len(tasks), n)]
+    out = []
+    for part in pool.map(functools.partial(_roomy_chunk, fn), chunks, 1):
+        out.extend(part)
+    return out
